@@ -655,6 +655,12 @@ func (c *HostClient) doNonNilReqResp(req *protocol.Request, resp *protocol.Respo
 		zr := c.acquireReader(conn)
 		defer zr.Release()
 		if respI.ReadHeaderAndLimitBody(resp, zr, c.MaxResponseBodySize) == nil {
+			if c.ResponseBodyStream && !resp.MustSkipBody() && len(resp.BodyBytes()) > 0 {
+				// a streaming client reads resp.BodyStream(): hand the body out that way
+				// (the connection is closed on return, nothing hangs on the stream)
+				b := append([]byte(nil), resp.BodyBytes()...)
+				resp.ConstructBodyStream(resp.BodyBuffer(), io.NopCloser(bytes.NewReader(b)))
+			}
 			return false, nil
 		}
 
